@@ -84,6 +84,10 @@ def sat (mh : MH) (deps : List (String × Val)) (v : Val) : Bool :=
       (match lookupVal deps f with | some (.int a) => decide (a ≤ i ∧ i ≤ hi) | _ => false)
   | .depIntRangeHi lo f, .int i =>
       (match lookupVal deps f with | some (.int a) => decide (lo ≤ i ∧ i ≤ a) | _ => false)
+  | .depIntRangeSpan fw flo, .int i =>
+      (match lookupVal deps fw, lookupVal deps flo with
+       | some (.int w), some (.int a) => decide (a ≤ i ∧ i ≤ a + w)
+       | _, _ => false)
   | .depListSize f, .list _ _ vs =>
       (match lookupVal deps f with | some (.int a) => decide ((vs.length : Int) = a) | _ => false)
   | .depVarFrom f, .str s =>
